@@ -74,7 +74,14 @@ class ParseUserData:
             else:
                 try:
                     cls = importlib.import_module(userDataParserMod)
-                except ImportError:
+                except ImportError as e:
+                    # A parser module that exists but cannot be loaded (e.g.
+                    # one of its own imports is missing) is a failure
+                    missing = getattr(e, 'name', None)
+                    if not isinstance(e, ModuleNotFoundError) or not missing \
+                            or not (userDataParserMod + '.').startswith(
+                                missing + '.'):
+                        raise
                     # No print for informational purposes, this is
                     # encountered often, e.g. PHYP
                     cls = None
